@@ -342,8 +342,10 @@ fn main() {
     let mut sim = Sim::new();
     let (init_fung, init_nf) = (sim.init_fung, sim.init_nf.clone());
     let init_coq = format!("({}, {}, {})", coq_z(init_fung[0]), coq_z(init_fung[1]), coq_ids(&init_nf));
-    let bnd = boundary_cases();
-    for i in 0..args.cases.max(bnd.len()) {
+    let mut bnd = boundary_cases();
+    // buckets under several proofs dropped out of order, then split off the worktop (shared with C10)
+    bnd.extend(proof_order_family(false, &[vec![2, 2, 3], vec![2, 3, 5]]));
+    for i in 0..(args.cases + bnd.len()) {
         let mut rng = root.fork(i as u64);
         let ops = match bnd.get(i) {
             Some((class, ops)) => {
@@ -436,13 +438,7 @@ fn main() {
     report.floor("tx_failure", (args.cases as u64) / 10);
     report.floor("takes", args.cases as u64);
     report.floor("conservation_checked", (args.cases as u64) / 6);
-    let mut per_class: std::collections::BTreeMap<&str, u64> = Default::default();
-    for (c, _) in &bnd {
-        *per_class.entry(*c).or_insert(0) += 1;
-    }
-    for (c, n) in per_class {
-        report.floor(c, n);
-    }
+    class_floors(&mut report, &bnd);
     cw.write(&args.out, args.shards).unwrap();
     report.write(&args.out).unwrap();
 }
